@@ -23,6 +23,17 @@ PROPS = {
         "assumptions": ["tables hold strictly sorted entry lists (the flush of a skiplist, or a compaction output: C17, C09_sorted_nonempty)"],
         "explanation": "binary searches modelled literally (BS.loop) and proved equal to a linear scan; lookup over all tables proved to be the brute-force newest version",
     },
+    "C11": {
+        "lean": "Originium.Props.C11",
+        "suites": ["key", "codec"],
+        "skeleton_funcs": ["table:Data.Encode", "table:Index.Encode", "table:Footer.Encode", "table:Meta.Encode", "table:Build", "wal:WAL.Write", "wal:WAL.Read"],
+        "trusted_base": COMMON_TB + ["S2 (klauspost/compress/s2) as an abstract pair with S2Law: decompressing a concatenation of compressed chunks gives the concatenation of the chunks",
+                                     "frugal/thrift: the binary layout of types.Entry is written out in the model and compared byte for byte; the library decoder on valid input is assumed to invert it",
+                                     "sync.Pool / bytes.Buffer: the ownership model of Pool.lean; the static fact 'encoders return bytes.Clone' is re-extracted every run"],
+        "assumptions": ["second sentence (bytes do not change afterwards) is partial: the ownership rule is proved on a model, physical aliasing is a runtime fact exercised by concurrent encoders in the suite",
+                        "file sizes < 2^64, wal field lengths < 2^31, versions < 2^63 (explicit hypotheses)"],
+        "explanation": "byte-level codecs with round-trip theorems for all inputs; table file layout + recovery parser; wal framing with torn-tail theorem",
+    },
     "C13": {
         "lean": "Originium.Props.C13",
         "suites": ["wm"],
